@@ -125,6 +125,7 @@ var (
 	vMarshaled []interface{}
 	vExpectErr bool
 	vExited    bool
+	vWantErrs  map[string][]error
 )
 
 func stubPrintf19(format string, a ...interface{}) (int, error) {
@@ -150,6 +151,10 @@ func stubIndent19(level int) string { return "" }
 func stubExit19(code int) {
 	vreach("exit")
 	vassert("exit-status-nonzero-iff-the-library-reports-cache-errors", (code != 0) == vExpectErr)
+	// the tool reports exactly the files in error: before it gives up it has named every one of them
+	for f := range vWantErrs {
+		vassert("files-in-error-are-reported-before-exit", vPrintedHas(f))
+	}
 	vExited = true
 	vhalt()
 }
@@ -221,6 +226,8 @@ func H_C19_report() {
 	wantVendors := lib.ListVendors()
 	wantErrs := lib.GetErrors()
 	vExpectErr = len(wantErrs) > 0
+	vWantErrs = wantErrs
+	vPrinted = nil
 
 	specDirs = nil
 	if useFlag {
@@ -244,7 +251,9 @@ func H_C19_report() {
 		cdiShowSpecDirs()
 	case 4:
 		o := &oci.Spec{}
+		vmapOrder(1) // the engine iterates maps in reverse here: the result must not depend on map iteration order
 		_ = cdiInjectDevices("json", o, []string{"*/*"})
+		vmapOrder(0)
 		ref := &oci.Spec{}
 		_, _ = lib.InjectDevices(ref, wantDevs...)
 		vassert("inject-prints-the-spec-that-library-injection-produces", len(vMarshaled) == 1 && vMarshaled[0] == interface{}(o))
